@@ -178,6 +178,13 @@ def _pushes(n, acc):
     return False
 
 
+REORDER = ("sort", "sort_by", "sort_by_key", "sort_unstable", "sort_unstable_by", "sort_unstable_by_key",
+           "sort_by_cached_key", "reverse", "dedup", "dedup_by", "dedup_by_key", "retain", "retain_mut",
+           "truncate", "insert", "swap", "remove", "swap_remove", "clear", "drain", "pop", "rotate_left",
+           "rotate_right", "split_off", "splice", "resize", "fill")
+S4_COUNT = [0]
+
+
 def s1_fn(rep, F, b, r, depth=0, seen=None):
     seen = seen if seen is not None else set()
     if b["path"] in seen:
@@ -337,6 +344,23 @@ def s1_fn(rep, F, b, r, depth=0, seen=None):
         rep.add(Finding("S1", b["path"], "no-accumulator",
                         "%s does not return a single accumulated vector" % b["name"], b["file"], b["line"]))
     else:
+        # S4: the accumulator is append-only; its order is the evaluation order in both modes
+        for n in walk(body):
+            if n.get("k") == "mcall":
+                rv = peel(n.get("recv"))
+                if isinstance(rv, dict) and rv.get("k") == "local" and rv.get("id") == acc:
+                    S4_COUNT[0] += 1
+                    if n.get("m") in REORDER:
+                        rep.add(Finding("S4", b["path"], "reorder:%s" % n["m"],
+                                        "%s applies %s() to its accumulated error list: stop mode returns in "
+                                        "evaluation order, so it would no longer be a prefix of full mode"
+                                        % (b["name"], n["m"]), b["file"], n.get("ln")))
+            elif n.get("k") == "ref" and n.get("mut") and n.get("e", {}).get("k") == "local" \
+                    and n["e"].get("id") == acc:
+                S4_COUNT[0] += 1
+                rep.add(Finding("S4", b["path"], "mut-borrow",
+                                "%s lends its accumulated error list mutably at line %s (not an append the rule "
+                                "can follow)" % (b["name"], n.get("ln")), b["file"], n.get("ln")))
         for n in walk(body):
             if n.get("k") == "ret":
                 e = peel(n.get("e")) if n.get("e") else None
@@ -354,6 +378,11 @@ def s1(rep, F):
                        "acc }` dominated by a push in the same branch; every return yields the accumulator; "
                        "after a flag-taking callee the stop return follows immediately", floor=100)
     seen = set()
+    S4_COUNT[0] = 0
+    r4 = rep.rule("S4", "the accumulated error list of validate_network_rules (and of callees receiving the flag) "
+                        "is append-only: no sort / reverse / dedup / retain / remove / truncate and no mutable "
+                        "loan, so full mode lists errors in evaluation order and stop mode is its prefix",
+                  floor=100)
     for T in G.message_types(F):
         main, tr = vnr(F, T)
         if main is None:
@@ -361,6 +390,8 @@ def s1(rep, F):
         if tr is not None and tr is not main:
             s1_fn(rep, F, tr, r, seen=seen)
         s1_fn(rep, F, main, r, seen=seen)
+    r4["instances"] = S4_COUNT[0]
+    r4["analysed"] = r["analysed"]
     return r
 
 
